@@ -206,7 +206,7 @@ def main() -> int:
     kernel = None
     if args.tier == "thorough" and not args.skip_lean and common.DRIVER_SAMPLES:
         # the compiled driver against the Lean KERNEL's own evaluation of the same model definitions the theorems are
-        # about: closed statements `model input = output the driver printed`, proved by `decide +kernel` (tab / bits / shp)
+        # about: closed statements `model input = output the driver printed`, proved by `decide +kernel` (every driver domain; see harness/kernelcheck.py)
         try:
             import kernelcheck
             kernel = kernelcheck.check(common.DRIVER_SAMPLES, max_statements=40, timeout=300)
